@@ -301,7 +301,9 @@ impl<'tx> TxInner<'tx> {
 
             // Grow the file, if needed
             let required_size = self.meta.num_pages * self.db.inner.pagesize;
-            let current_size = file.metadata()?.len();
+            // What counts is how much of the file is mapped: an earlier commit may have extended
+            // the file and then failed to map it again, which leaves the map shorter than the file.
+            let current_size = file.metadata()?.len().min(self.pages.data.len() as u64);
             if current_size < required_size {
                 let size_diff = required_size - current_size;
                 let alloc_size = ((size_diff / MIN_ALLOC_SIZE) + 1) * MIN_ALLOC_SIZE;
